@@ -118,11 +118,12 @@ Lca(p, a, i, j) ==
 
 T_Has(i)      == Present(i)
 T_Par(i)      == IF Present(i) THEN par[i] ELSE MISSING
-T_Anc(H)      == IF H \subseteq PresentS THEN Anc(H) ELSE MISSING
-T_Mb(i, j)    == IF {i, j} \subseteq PresentS THEN Lca(TParFn, TAncFn, i, j) ELSE MISSING
-T_RC(H, X)    == IF H \cup X \subseteq PresentS THEN Anc(H) \ Anc(X) ELSE MISSING
-T_RO(H, X)    == T_RC(H, X)                 \* groups: every object of every such commit
-T_Miss(Hv, W) == IF W \subseteq PresentS THEN Anc(W) \ Anc(Hv \cap PresentS) ELSE MISSING
+\* (ta is TAncFn, computed once by the caller)
+T_Anc(ta, H)  == IF H \subseteq PresentS THEN AncOf(ta, H) ELSE MISSING
+T_Mb(ta, i, j) == IF {i, j} \subseteq PresentS THEN Lca(TParFn, ta, i, j) ELSE MISSING
+T_RC(ta, H, X) == IF H \cup X \subseteq PresentS THEN AncOf(ta, H) \ AncOf(ta, X) ELSE MISSING
+T_RO(ta, H, X) == T_RC(ta, H, X)             \* groups: every object of every such commit
+T_Miss(ta, Hv, W) == IF W \subseteq PresentS THEN AncOf(ta, W) \ AncOf(ta, Hv \cap PresentS) ELSE MISSING
 T_Ref(r)      == tref[r]
 
 -----------------------------------------------------------------------------
@@ -194,14 +195,14 @@ OnKinds == {k \in Kinds : (k = "cg" /\ cg.on) \/ (k = "midx" /\ midx.on) \/ (k =
 Transparent == LET u == View({}) IN \A A \in (SUBSET OnKinds) \ {{}} : Same(View(A), u)
 \* ... = the definition on primary data
 Exact ==
-    LET u == View({}) IN
+    LET u == View({})  ta == TAncFn IN
     /\ \A i \in Commits : W_Has(u, i) = T_Has(i) /\ W_Par(u, i) = T_Par(i)
-    /\ \A i, j \in Commits : i < j => W_Mb(u, i, j) = T_Mb(i, j)
+    /\ \A i, j \in Commits : i < j => W_Mb(u, i, j) = T_Mb(ta, i, j)
     /\ \A H \in Heads :
-          /\ W_Anc(u, H) = T_Anc(H)
-          /\ \A X \in Excl : /\ W_RCs(u, H, X) = {T_RC(H, X)}
-                             /\ W_ROs(u, H, X) = {T_RO(H, X)}
-                             /\ W_Misss(u, X, H) = {T_Miss(X, H)}
+          /\ W_Anc(u, H) = T_Anc(ta, H)
+          /\ \A X \in Excl : /\ W_RCs(u, H, X) = {T_RC(ta, H, X)}
+                             /\ W_ROs(u, H, X) = {T_RO(ta, H, X)}
+                             /\ W_Misss(u, X, H) = {T_Miss(ta, X, H)}
 \* the storage of refs (loose file shadowing a packed entry) always yields THE value
 RefsTransparent == \A r \in Refs : RefVal(r) = tref[r]
 \* an entry that disagrees with the data it indexes contributes nothing
